@@ -676,10 +676,10 @@ pub fn owned_prefixes(prop: &str) -> &'static [&'static str] {
         "C02" => &["order/"],
         "C04" => &["ledger/mismatch", "ledger/invented", "hb/race/KanalPtr", "hb/race/owner-returnsxKanalPtr", "hb/race/publishxKanalPtr", "hb/race/re-publishxKanalPtr"],
         "C05" => &["ledger/double-drop", "ledger/leak", "ledger/option", "ledger/drop-of-garbage"],
-        "C06" => &["hang/"],
+        "C06" => &["hang/", "progress/"],
         "C07" => &["hb/race", "life/", "ledger/drop-of-garbage"],
         "C08" => &["cap/"],
-        "C09" => &["ledger/", "order/", "hang/", "count/", "close/"],
+        "C09" => &["ledger/", "order/", "hang/", "count/", "close/", "progress/"],
         "C10" => &["close/", "hang/"],
         "C11" => &["disc/", "hang/", "ledger/lost", "ledger/double-drop", "ledger/leak", "ledger/failed-send-delivered"],
         "C12" => &["count/"],
@@ -705,7 +705,12 @@ pub fn evaluate(prop: &str, d: &RunData) -> (Vec<Violation>, Vec<Violation>) {
             all.extend(o_delivery(&a));
         }
         "C05" => all.extend(o_drops(&a)),
-        "C06" | "C07" => {}
+        "C06" => {
+            if done {
+                all.extend(o_progress(&a));
+            }
+        }
+        "C07" => {}
         "C08" => all.extend(o_cap(&a)),
         "C09" => {
             all.extend(o_delivery(&a));
@@ -714,6 +719,7 @@ pub fn evaluate(prop: &str, d: &RunData) -> (Vec<Violation>, Vec<Violation>) {
             if done {
                 all.extend(o_count(&a));
                 all.extend(o_close(&a));
+                all.extend(o_progress(&a));
             }
         }
         "C10" => {
